@@ -156,7 +156,9 @@ func init() {
 			return pick(c, H, "Application", func(f *ssa.Function) bool { return f != t && staticCallsTo(f, false, t) })
 		},
 		app("executeTranslatedNonStreamingRequest"): func(c *Ctx) *ssa.Function {
-			return pick(c, H, "Application", func(f *ssa.Function) bool { return invokesMethod(f, false, "ProxyRequestToEndpoints") && callsDeep(c, f, "TransformResponse", 2) && !returnsHandlerFunc(f) })
+			return pick(c, H, "Application", func(f *ssa.Function) bool {
+				return invokesMethod(f, false, "ProxyRequestToEndpoints") && callsDeep(c, f, "TransformResponse", 2) && !returnsHandlerFunc(f)
+			})
 		},
 		app("handleStreamingBackendError"): func(c *Ctx) *ssa.Function {
 			w := c.Fn(H, "(*Application).executeTranslatedStreamingRequest")
